@@ -167,7 +167,11 @@ func (b *StubBastion) WaitConnected(d time.Duration) error {
 	case <-b.got:
 		return nil
 	case <-time.After(d):
-		return fmt.Errorf("witness did not connect to the stub bastion within %v (%v)", d, b.Errors())
+		// a deadline of the harness, not an observation about a listed property: the connection
+		// is dialled on a 5 s tick with a 10 s dial timeout, and on a badly overloaded machine
+		// (load average above 100 was seen) several rounds can go by. SaveFailure recognises the
+		// marker and does not turn this into a replayable violation; the run is inconclusive.
+		return fmt.Errorf("%s witness did not connect to the stub bastion within %v (%v)", InfraMarker, d, b.Errors())
 	}
 }
 
